@@ -185,6 +185,10 @@ pub struct World {
     /// slot name -> the parent of the slot (set when the CA is created /
     /// the parent is added; kept when the parent is removed again)
     pub slot_parent: BTreeMap<String, String>,
+    /// a task that has been claimed and processed but whose result has not
+    /// been applied to the queue yet (StepHold ... Release): the window in
+    /// which the scheduler thread is still "running" the task
+    held: Option<(Box<krill::commons::storage::Ident>, TaskResult)>,
 }
 
 /// A BGPsec router key signing request for a fresh P-256 key.
@@ -273,6 +277,7 @@ impl World {
             last_keys: Value::Null,
             slots: BTreeMap::new(),
             slot_parent: BTreeMap::from([("A".to_string(), "ta".to_string())]),
+            held: None,
         };
         world.init_ta()?;
         Ok(world)
@@ -510,7 +515,7 @@ impl World {
             AspaDefinitionUpdates {
                 add_or_replace: vec![],
                 remove: vec![
-                    serde_json::from_value(json!(format!("AS{cust}")))
+                    serde_json::from_value(json!(cust))
                         .map_err(|e| e.to_string())?
                 ],
             }
@@ -594,6 +599,14 @@ impl World {
     /// may be the next one the scheduler picks: their time stamps have a
     /// resolution of one second). Falls back to the earliest due task.
     pub fn step_named(&mut self, wanted: &str) -> Result<Option<String>, String> {
+        self.step_named_opt(wanted, false)
+    }
+
+    /// ... with hold: the result is not applied (see `held`); without a
+    /// due task of that name nothing happens.
+    pub fn step_named_opt(
+        &mut self, wanted: &str, hold: bool
+    ) -> Result<Option<String>, String> {
         let krill = self.env.krill.clone();
         let store = krill.storage().open(TASK_QUEUE_NS).map_err(|e| {
             e.to_string()
@@ -618,6 +631,9 @@ impl World {
             }
         }
         let Some((key, actual)) = found else {
+            if hold {
+                return Ok(None)
+            }
             return self.step_task()
         };
         let wanted = actual.as_str();
@@ -640,18 +656,40 @@ impl World {
         let res = verif_process_task(
             &self.env.slow, task, self.env.started
         ).map_err(|e| format!("fatal task error in {wanted}: {e}"))?;
+        if hold {
+            // the task stays in the running state until Release
+            self.held = Some((running_key, res));
+            return Ok(Some(wanted.to_string()))
+        }
+        self.apply_result(&running_key, res, wanted)?;
+        Ok(Some(wanted.to_string()))
+    }
+
+    /// Applies the result of a processed task the way scheduler::run does.
+    fn apply_result(
+        &mut self, running_key: &krill::commons::storage::Ident,
+        res: TaskResult, name: &str,
+    ) -> Result<(), String> {
+        let krill = self.env.krill.clone();
         let tasks = krill.tasks();
-        // ... and apply the result the way scheduler::run does.
         match res {
-            TaskResult::Done => tasks.finish(&running_key),
+            TaskResult::Done => tasks.finish(running_key),
             TaskResult::FollowUp(task, prio) => {
                 tasks.schedule_and_finish_existing(task, prio)
             }
             TaskResult::Reschedule(prio) => {
-                tasks.reschedule(&running_key, prio)
+                tasks.reschedule(running_key, prio)
             }
-        }.map_err(|e| format!("queue error after {wanted}: {e}"))?;
-        Ok(Some(wanted.to_string()))
+        }.map_err(|e| format!("queue error after {name}: {e}"))
+    }
+
+    /// The scheduler thread finishes the task it was holding.
+    pub fn release(&mut self) -> Result<(), String> {
+        if let Some((key, res)) = self.held.take() {
+            let name = key.as_str().to_string();
+            self.apply_result(&key, res, &name)?;
+        }
+        Ok(())
     }
 
     /// Runs due tasks until none is left (bounded).
@@ -2109,6 +2147,21 @@ pub fn apply_action(w: &mut World, action: &Value) -> Result<Value, String> {
             w.roll_activate(str_arg(action, "c"))?;
             Ok(json!("ok"))
         }
+        "StepHold" => {
+            // the task is claimed and processed; the scheduler thread
+            // finishes it at the next Release
+            if w.held.is_some() {
+                return Ok(json!({"skipped": true}))
+            }
+            Ok(match w.step_named_opt(str_arg(action, "task"), true)? {
+                Some(name) => json!({"task": name}),
+                None => json!({"skipped": true}),
+            })
+        }
+        "Release" => {
+            w.release()?;
+            Ok(json!("ok"))
+        }
         "Step" if !str_arg(action, "task").is_empty() => {
             Ok(match w.step_named(str_arg(action, "task"))? {
                 Some(name) => json!({"task": name}),
@@ -2351,7 +2404,10 @@ pub fn run(behaviours: &Path, out: &Path, workdir: &Path, memory: bool) {
             {
                 continue
             }
-            line["ev"] = json!(a);
+            line["ev"] = json!(if a == "StepHold" { "Step" } else { a.as_str() });
+            if a == "StepHold" {
+                line["held"] = json!(true);
+            }
             match res {
                 Outcome::Ok(Ok(v)) => {
                     line["status"] = json!("ok");
